@@ -807,8 +807,10 @@ def numpy_binning(
             raise ValueError(f"Range too large to find bins: {start} to {stop}.")
         edges = np.linspace(start, stop, bin_count + 1)
         if (np.diff(edges) == 0).any():
-            edge = edges[0]
-            edges = np.array([edge := np.nextafter(edge, np.inf) for _ in edges])
+            edge = edges[0]  # The first edge is the minimum itself, the others follow one ulp apart
+            edges = np.array(
+                [edge] + [edge := np.nextafter(edge, np.inf) for _ in edges[1:]]
+            )
             # raise ValueError(
             #    f"Range too narrow to split into {bin_count} bins: {start} to {stop}."
             # )
